@@ -213,6 +213,10 @@ class Shapes:
             src = t[1]
             if src[0] == "const" and isinstance(src[1], str):
                 return frozenset({NE})
+            # the elements of <mapping>.items() / enumerate(x) / zip(...) are pairs
+            if src[0] == "call" and ((src[1][0] == "attr" and src[1][2] == "items" and not src[2]) or
+                                     src[1] in (("builtin", "enumerate"), ("builtin", "zip"))):
+                return frozenset({NE})
             return self.top
         if tag == "comp":
             return STR
